@@ -69,6 +69,8 @@ type apiRec struct {
 
 var apiDataSeq atomic.Int64
 
+func apiWho(n int64) string { return fmt.Sprintf("Bo%dq", n) }
+
 func apiDataN(n int64) map[string]any {
 	t := reflect.StructOf([]reflect.StructField{
 		{Name: fmt.Sprintf("F%d", n), Type: reflect.TypeOf(0)},
@@ -77,7 +79,8 @@ func apiDataN(n int64) map[string]any {
 	v := reflect.New(t).Elem()
 	v.Field(0).SetInt(n)
 	v.Field(1).SetString("n")
-	return map[string]any{"who": "Bo", "items": []int{1, 2, 3}, "fresh": v.Interface(),
+	// "who" is different in every call ("their own data"): a result that shows another call's value is not this call's
+	return map[string]any{"who": apiWho(n), "items": []int{1, 2, 3}, "fresh": v.Interface(),
 		"ptr": &apiRec{Name: "p", Tags: []string{"a", "b"}}, "m": map[string]any{"k": apiRec{Name: "q"}, "l": []any{1, "x"}}}
 }
 
@@ -168,7 +171,15 @@ func (e *apiEnv) run(o apiOp) (sig string, body string, ok bool) {
 	if o.Page == "row1" || o.Page == "row2" {
 		data["r"] = rowOf()
 	}
+	// the root path and this call's own "who" are normalised; any other call's "who" stays visible in the signature
 	norm := func(s string) string { return strings.ReplaceAll(s, e.root, "$ROOT") }
+	defer func() {
+		own := apiWho(dataN)
+		fix := func(s string) string {
+			return strings.ReplaceAll(strings.ReplaceAll(s, own, "Bo"), strings.ToUpper(own), "BO")
+		}
+		sig, body = fix(sig), fix(body)
+	}()
 	switch o.K {
 	case "String":
 		out, ferr := e.tpl.String(o.Page, data)
